@@ -216,6 +216,14 @@ impl Stats {
             *self.classes.lock().unwrap().entry(name.to_string()).or_insert(0) += n;
         }
     }
+    /// Tracks a maximum instead of a count.
+    pub fn class_max(&self, name: &str, v: u64) {
+        if self.live() {
+            let mut c = self.classes.lock().unwrap();
+            let e = c.entry(name.to_string()).or_insert(0);
+            *e = (*e).max(v);
+        }
+    }
     pub fn class_count(&self, name: &str) -> u64 {
         self.classes.lock().unwrap().get(name).copied().unwrap_or(0)
     }
@@ -522,12 +530,15 @@ pub fn run_property(def: PropertyDef, tier: Tier, seed: u64, replay: Option<Path
     // classify
     let mut violations: Vec<(Found, PathBuf)> = vec![];
     let mut known_hits: BTreeMap<String, KnownFinding> = BTreeMap::new();
+    let mut inconclusive: Vec<String> = vec![];
     let mut seen_sigs: HashSet<(String, String)> = HashSet::new();
     for (idx, f) in found.iter().enumerate() {
         if !seen_sigs.insert((f.prop.clone(), f.failure.signature.clone())) {
             continue;
         }
-        if let Some(k) = is_known_open(&known, def.id, &f.failure.signature) {
+        if f.failure.signature.starts_with("inconclusive:") {
+            inconclusive.push(f.failure.message.clone());
+        } else if let Some(k) = is_known_open(&known, def.id, &f.failure.signature) {
             known_hits.insert(k.signature.clone(), k);
         } else {
             let path = write_replay(&root, def.id, seed, idx, f);
@@ -597,6 +608,12 @@ pub fn run_property(def: PropertyDef, tier: Tier, seed: u64, replay: Option<Path
     );
     if !violations.is_empty() {
         return 1;
+    }
+    if !inconclusive.is_empty() {
+        for h in inconclusive.iter() {
+            outln!("INCONCLUSIVE property={} {}", def.id, h);
+        }
+        return 2;
     }
     if !health.is_empty() {
         for h in health.iter() {
